@@ -1,8 +1,8 @@
 //! Simulated `Instant`. `now()` is a scheduling point and charges the calling task's step cost
 //! (see `sim::ClockProfile`).
 
-pub use std::time::Duration;
-use std::ops::{Add, Sub};
+pub use std::time::{Duration, SystemTime, SystemTimeError, UNIX_EPOCH};
+use std::ops::{Add, AddAssign, Sub, SubAssign};
 
 #[derive(Clone, Copy, Debug, PartialEq, Eq, PartialOrd, Ord, Hash)]
 pub struct Instant(u64);
@@ -24,6 +24,37 @@ impl Instant {
     }
     pub fn elapsed(&self) -> Duration {
         Duration::from_nanos(crate::sim::clock_ns().saturating_sub(self.0))
+    }
+}
+
+impl Instant {
+    pub fn checked_add(&self, d: Duration) -> Option<Instant> {
+        Some(*self + d)
+    }
+    pub fn checked_sub(&self, d: Duration) -> Option<Instant> {
+        self.0.checked_sub(d.as_nanos().min(u64::MAX as u128) as u64).map(Instant)
+    }
+    pub fn saturating_duration_since(&self, earlier: Instant) -> Duration {
+        self.duration_since(earlier)
+    }
+    pub fn checked_duration_since(&self, earlier: Instant) -> Option<Duration> {
+        self.0.checked_sub(earlier.0).map(Duration::from_nanos)
+    }
+}
+impl AddAssign<Duration> for Instant {
+    fn add_assign(&mut self, d: Duration) {
+        *self = *self + d;
+    }
+}
+impl Sub<Duration> for Instant {
+    type Output = Instant;
+    fn sub(self, d: Duration) -> Instant {
+        Instant(self.0.saturating_sub(d.as_nanos().min(u64::MAX as u128) as u64))
+    }
+}
+impl SubAssign<Duration> for Instant {
+    fn sub_assign(&mut self, d: Duration) {
+        *self = *self - d;
     }
 }
 
